@@ -1,6 +1,5 @@
 use super::Optimizer;
 use crate::prelude::Vector;
-use approx_eq::rel_diff;
 use reverse::*;
 
 /// Implements the Adam optimizer. See [Kingma and Ba 2014](https://arxiv.org/abs/1412.6980) for
@@ -124,7 +123,12 @@ impl Optimizer for Adam {
 
             if crate::statistics::max(
                 &(0..param_len)
-                    .map(|i| rel_diff(params[i].val(), prev_params[i].val()))
+                    .map(|i| {
+                        // relative change of the parameter (rel_diff compares magnitudes only and
+                        // reports "no change" when a parameter merely flips its sign)
+                        let (a, b) = (params[i].val(), prev_params[i].val());
+                        (a - b).abs() / a.abs().max(b.abs()).max(f64::MIN_POSITIVE)
+                    })
                     .collect::<Vec<_>>(),
             ) < f64::EPSILON
             {
